@@ -366,7 +366,11 @@ func buildBody(c *Chooser, k string) (body string, supi string) {
 		}
 		nf["nodeFunctionality"] = pick(c, "nodeFunctionality", "SMF", "", "XYZ")
 		nf["nFIPv4Address"] = "10.0.0.7"
-		switch c.Pick(12, "nFPLMNID") {
+		switch c.Pick(14, "nFPLMNID") {
+		case 12: // a mobile network code of three octets in two characters
+			nf["nFPLMNID"] = jsonObj{"mcc": "208", "mnc": "1é"}
+		case 13:
+			nf["nFPLMNID"] = jsonObj{"mcc": "208", "mnc": "é1"}
 		case 8: // right number of octets, fewer characters
 			nf["nFPLMNID"] = jsonObj{"mcc": "é1", "mnc": "93"}
 		case 9:
